@@ -14,6 +14,7 @@ func BytesUpTo(name string, max int) []byte { return nextBytes(name, nextDecisio
 func Choice(name string, n int) int         { return nextDecision("choice:"+name, n) }
 func String(name string, maxLen int) string { return nextString(name) }
 func StrLen(s string) int                   { return len(s) }
+func HasPrefix(s, prefix string) bool       { return len(s) >= len(prefix) && s[:len(prefix)] == prefix }
 func Param(name string) int                 { return param(name) }
 
 // ---- assumptions / assertions ----
@@ -75,11 +76,17 @@ func Ite64(c bool, a, b int64) int64 {
 
 // ---- clock ----
 
-func Now() (sec, nsec int64)           { return clockNow() }
-func ClockMin(sec int64)               {}
-func ClockMax(sec int64)               {}
-func ClockUnbound()                    {}
-func ClockFreeze(on bool)              { clockFreeze(on) }
+func Now() (sec, nsec int64) { return clockNow() }
+func ClockMin(sec int64)     {}
+func ClockMax(sec int64)     {}
+func ClockUnbound()          {}
+func ClockFreeze(on bool)    { clockFreeze(on) }
+func TruncSec(sec, m int64) int64 {
+	if m <= 1 {
+		return sec
+	}
+	return sec - sec%m
+}
 func TimeLE(s1, n1, s2, n2 int64) bool { return s1 < s2 || (s1 == s2 && n1 <= n2) }
 
 // ---- model introspection (symbolic runs only; natively they are inert) ----
